@@ -3,8 +3,8 @@
 (*   singles : every feature on each of its home templates (length and pattern features on every        *)
 (*             applicable template, because they interact with where "text" inherits from; the others    *)
 (*             on the first template that offers what they need);                                        *)
-(*   pairs   : unordered pairs of distinct simple features (quick: both from the core pool; thorough: at   *)
-(*             least one from the core pool) on the pair template that offers what both need.           *)
+(*   pairs   : unordered pairs of distinct simple features (quick: both from the core pool; thorough: also *)
+(*             every pair with a member in the hot pool) on the pair template that offers what both need.*)
 (* Every case is checked against WellFormed (a slip in a feature action is a specification error).        *)
 EXTENDS GenFeatures, SequencesExt, Json, IOUtils
 CONSTANTS PairScope,      \* "core" | "all": which features are combined pairwise
@@ -35,20 +35,26 @@ SingleChosen == {k \in SingleKeys : k[1] \in HomeTemplates(k[2][1])}
 \* the pool for pairwise combination in the quick tier: the constructs with a history of breaking a generator
 CorePool == {
     "len_eq0", "len_ge0_le5", "len_inh_ge5_le3",
-    "pat_mid_caret", "pat_nongreedy", "pat_straddle", "pat_two",
-    "ty_list_int", "ty_list_enum", "ty_list_list_int", "ty_opt_list_item", "ty_opt_list_str", "ty_self_list",
-    "st_abstract_childless", "st_enum_empty", "st_impl_class", "st_impl_method", "st_impl_fn", "st_const_set_str",
-    "st_diamond", "st_diamond_cprim", "st_no_props", "st_wmt_true",
-    "ex_all_items", "ex_enum_eq", "ex_is_none",
+    "pat_mid_caret", "pat_straddle", "pat_two",
+    "ty_list_int", "ty_list_enum", "ty_list_list_int", "ty_opt_list_item", "ty_self_list",
+    "st_abstract_childless", "st_enum_empty", "st_impl_class", "st_impl_method", "st_impl_fn",
+    "st_diamond", "st_diamond_cprim", "st_no_props",
+    "ex_all_items", "ex_enum_eq",
     "nm_class_case_collision", "nm_prop_case_collision", "nm_literal_collision"}
-\* quick ("core"): pairs inside the core pool; thorough ("all"): pairs with at least one member in the core pool
+\* quick ("core"): pairs inside the core pool; thorough ("all"): additionally every pair with a member in the hot pool
 CoreSet == {Simple(f) : f \in CorePool}
+\* thorough: the members of the core pool that are combined with *every* simple feature
+HotPool == {"len_eq0", "len_inh_ge5_le3", "pat_mid_caret", "pat_straddle", "pat_two", "ty_list_int", "ty_list_list_int", "ty_opt_list_item",
+            "st_abstract_childless", "st_enum_empty", "st_impl_class", "st_impl_fn", "st_diamond_cprim", "ex_all_items", "nm_prop_case_collision"}
+HotSet == {Simple(f) : f \in HotPool}
 PairPool == IF PairScope = "all" THEN SimpleFeaturePairs ELSE CoreSet
 PoolSeq == SetToSeq(PairPool)
 PairTemplates == {"chain", "list"}
 \* unordered pairs (i < j on an arbitrary but fixed enumeration of the pool)
 PairChosen ==
-    UNION {{<<t, <<PoolSeq[i], PoolSeq[j]>>>> : j \in {k \in (i + 1)..Len(PoolSeq) : PoolSeq[i] \in CoreSet \/ PoolSeq[k] \in CoreSet}} :
+    UNION {{<<t, <<PoolSeq[i], PoolSeq[j]>>>> : j \in {k \in (i + 1)..Len(PoolSeq) :
+                    \/ PoolSeq[i] \in CoreSet /\ PoolSeq[k] \in CoreSet
+                    \/ PoolSeq[i] \in HotSet \/ PoolSeq[k] \in HotSet}} :
            t \in PairTemplates, i \in DOMAIN PoolSeq}
 \* a pair lives on the first of the pair templates on which both features are applicable
 PairHome(fs) == IF Valid("list", fs) /\ (NeedsItems(fs[1][1]) \/ NeedsItems(fs[2][1])) THEN "list"
@@ -59,7 +65,7 @@ BaseKeys == {<<t, <<>>>> : t \in TemplateIds}
 Keys == BaseKeys \cup {k \in SingleChosen : Valid(k[1], k[2])} \cup PairFinal
 Cases == {Case(k[1], k[2]) : k \in Keys}
 
-ASSUME CorePool \subseteq SimpleFeatures
+ASSUME CorePool \subseteq SimpleFeatures /\ HotPool \subseteq CorePool
 ASSUME \A c \in Cases : WellFormed(c.model) \/ (PrintT(<<"NOT WELL-FORMED", c.template, c.features>>) /\ FALSE)
 ASSUME JsonSerialize(IOEnv.VERIF_OUT, SetToSeq(Cases))
 ASSUME PrintT(<<"@@PRINT@@ cases", Cardinality(Cases), Cardinality(BaseKeys), Cardinality({k \in SingleChosen : Valid(k[1], k[2])}), Cardinality(PairFinal)>>)
